@@ -35,6 +35,7 @@ Spec == Init /\ [][Pick1 \/ Pick2]_vars
 Done == pc = "done"
 
 P(comp, name) == comp \o "." \o name
+DotOf(path) == "dot(" \o path \o ")"
 \* the model as a function path -> [kind, e (references are Var(path)), init]
 \* component c1: state s1 with nested variable nest1 (and, if deep, a variable k nested in it), constant cn, constant p
 \* component c2: state s2 with nested variable nest2, constant cn (same local name as in c1: clash), an intermediate r
@@ -59,13 +60,18 @@ Model ==
                        [] OTHER -> Bn("add", Bn("mul", Ref(n.r2), Ref(n.a2)), Ref(n.g2))])
   @@ (n.a2 :> [kind |-> "inter", e |-> Bn("sub", Ref(n.g2), Bn("mul", Ref(n.v2), N("0.5")))])
   @@ (n.g2 :> [kind |-> "const", e |-> N("3")])
-  @@ (n.r2 :> [kind |-> "inter", e |-> Bn("add", Ref(n.v1), Ref(n.g2))])
+  \* shape 2 and 4: r refers to the DERIVATIVE of the other component's state, written dot(c1.V) in Myokit
+  @@ (n.r2 :> [kind |-> "inter", e |-> IF shape \in {2, 4} THEN Bn("add", Ref(DotOf(n.v1)), Ref(n.g2)) ELSE Bn("add", Ref(n.v1), Ref(n.g2))])
 
 Paths == DOMAIN Model
+IsDot(p) == \E q \in DOMAIN Model : p = DotOf(q)
+BaseOf(p) == CHOOSE q \in DOMAIN Model : p = DotOf(q)
 States == {p \in Paths : Model[p].kind = "state"}
 \* meaning: value of a path at a state assignment
 RECURSIVE DenP(_,_)
-DenP(p, st) == IF Model[p].kind = "state" THEN st[p]
+DenP(p, st) == IF IsDot(p) THEN LET e == Model[BaseOf(p)].e IN
+                                ToNum(Eval(e, [v \in Vars(e) \cup {"t"} |-> IF v = "t" THEN QZero ELSE DenP(v, st)], TRUE))
+               ELSE IF Model[p].kind = "state" THEN st[p]
                ELSE LET e == Model[p].e IN ToNum(Eval(e, [v \in Vars(e) \cup {"t"} |-> IF v = "t" THEN QZero ELSE DenP(v, st)], TRUE))
 Deriv(p, st) == LET e == Model[p].e IN ToNum(Eval(e, [v \in Vars(e) \cup {"t"} |-> IF v = "t" THEN QZero ELSE DenP(v, st)], TRUE))
 InitState == [p \in States |-> ToNum(Eval(Model[p].init, [v \in {"t"} |-> QZero], TRUE))]
